@@ -57,7 +57,7 @@ Clause(s, a, o) ==
       "tell-draw: draw() moved the image's current frame"
     ELSE IF t.tell # -1 /\ o.tell # t.tell THEN
       "tell: image.tell() is not the last yielded frame"
-    ELSE IF o.iterH + o.callH > Cardinality(t.handles) THEN
+    ELSE IF o.callH > CountOwner(t.handles, "call") \/ o.iterH > CountOwner(t.handles, "iter") THEN
       "handles-leak: a file the library opened is still open"
     ELSE IF o.gc > x.gcMax THEN
       "prompt-close: a file was left to the garbage collector"
